@@ -10,7 +10,7 @@
 
     A flow whose row filter panics (NOT over a dropped comparison) delivers nothing. *)
 From Coq Require Import ZArith NArith List Bool.
-From Snel Require Import Base.Bytes Model.Value Model.Expr Model.Sem Model.Cond Model.Prune.
+From Snel Require Import Base.Bytes Gen.Params Model.Value Model.Expr Model.Sem Model.Cond Model.Prune.
 Import ListNotations.
 
 Record zone := mk_zone { z_id : zid; z_rows : list event }.
@@ -48,7 +48,8 @@ Section Run.
     end.
 
   (** zone_hydrator.rs: when at least one candidate zone (of any segment) carries a uid, only the
-      uid-carrying candidates are hydrated; the others stay without columns and are skipped. *)
+      uid-carrying candidates are hydrated; the others stay without columns and are skipped
+      ([query_hydrate_tagged_only], Gen/Params.v: false once bare zones are tagged before hydration). *)
   Definition any_tagged (cs : list (list czone)) : bool :=
     existsb (fun l => existsb (fun z => snd z) l) cs.
   Definition hydrated (only_tagged : bool) (cand : list czone) (z : zone) : bool :=
@@ -70,7 +71,7 @@ Section Run.
 
   Definition read_rows (L : layout) (q : query) : list (list event * event) :=
     let cs := all_candidates q 0 (l_segs L) in
-    segs_read (any_tagged cs) cs (l_segs L).
+    segs_read (query_hydrate_tagged_only && any_tagged cs) cs (l_segs L).
 
   Definition run_query (L : layout) (q : query) : list event :=
     (match filter_opt (filter_mem sch q) (l_mem L) with Some r => r | None => [] end)
@@ -82,7 +83,7 @@ Section Run.
   (** the candidate list mixes uid-carrying and bare zones: the bare ones are not read *)
   Definition mixed_provenance (L : layout) (q : query) : bool :=
     let cs := all_candidates q 0 (l_segs L) in
-    any_tagged cs && existsb (fun l => existsb (fun z => negb (snd z)) l) cs.
+    query_hydrate_tagged_only && any_tagged cs && existsb (fun l => existsb (fun z => negb (snd z)) l) cs.
 
   (** some leaf of the query does not list a zone of some segment that holds a row satisfying the
       leaf (the pruning structure, or the dispatch around it, is not a superset there) *)
